@@ -125,6 +125,7 @@ func (p *tparser) node() *Node {
 // Program is a sequence of top-level forms, rendered one per line.
 type Program struct {
 	Forms []*Node
+	Paren bool // render [ ] lists with ( ) — the two spellings read differently
 }
 
 // Render returns the source text and the 1-based line/column of the target
@@ -133,7 +134,7 @@ func (p *Program) Render() (src string, line, col int) {
 	var b strings.Builder
 	for i, f := range p.Forms {
 		var lb strings.Builder
-		renderNode(f, &lb, func(off int) {
+		renderNode(f, p.Paren, &lb, func(off int) {
 			line, col = i+1, off+1
 		})
 		b.WriteString(lb.String())
@@ -142,7 +143,7 @@ func (p *Program) Render() (src string, line, col int) {
 	return b.String(), line, col
 }
 
-func renderNode(n *Node, b *strings.Builder, onTarget func(off int)) {
+func renderNode(n *Node, paren bool, b *strings.Builder, onTarget func(off int)) {
 	if !n.IsList {
 		b.WriteString(n.Atom)
 		return
@@ -150,7 +151,7 @@ func renderNode(n *Node, b *strings.Builder, onTarget func(off int)) {
 	if n.Target {
 		onTarget(b.Len())
 	}
-	if n.Bracket {
+	if n.Bracket && !paren {
 		b.WriteByte('[')
 	} else {
 		b.WriteByte('(')
@@ -159,9 +160,9 @@ func renderNode(n *Node, b *strings.Builder, onTarget func(off int)) {
 		if i > 0 {
 			b.WriteByte(' ')
 		}
-		renderNode(c, b, onTarget)
+		renderNode(c, paren, b, onTarget)
 	}
-	if n.Bracket {
+	if n.Bracket && !paren {
 		b.WriteByte(']')
 	} else {
 		b.WriteByte(')')
@@ -193,6 +194,7 @@ type Closure struct {
 	Macro  bool
 	Origin string // defun, defmacro, lambda, flet, labels, macrolet
 	Name   string
+	Pkg    string // package that was current when the closure was made; its body runs there
 }
 
 type Val struct {
@@ -234,7 +236,9 @@ func (r Resolution) String() string {
 }
 
 type scopeInterp struct {
-	globals  map[string]Val
+	pkgs     map[string]map[string]Val // package name -> symbol table (own and imported bindings)
+	exports  map[string]map[string]bool
+	cur      string // current package
 	registry map[string]bool // names bound in the lisp package (builtins, ops, macros)
 	res      Resolution
 	steps    int
@@ -254,7 +258,27 @@ func (in *scopeInterp) lookup(name string, env *Frame) (Val, string) {
 			return v, "local"
 		}
 	}
-	if v, ok := in.globals[name]; ok {
+	// pkg:name goes straight to that package's table (exports are not
+	// enforced for qualified access); every package starts with the lisp
+	// package's symbols, so a name the package does not define itself falls
+	// back to the registry
+	if i := strings.LastIndexByte(name, ':'); i > 0 {
+		pkg, bare := name[:i], name[i+1:]
+		if pkg != "lisp" {
+			tab, ok := in.pkgs[pkg]
+			if !ok {
+				return Val{Kind: vUnbound, Name: name}, "unbound"
+			}
+			if v, ok := tab[bare]; ok {
+				return v, "global"
+			}
+		}
+		if in.registry[bare] {
+			return Val{Kind: vRegistry, Name: bare}, "registry"
+		}
+		return Val{Kind: vUnbound, Name: name}, "unbound"
+	}
+	if v, ok := in.table()[name]; ok {
 		return v, "global"
 	}
 	if in.registry[name] {
@@ -262,6 +286,19 @@ func (in *scopeInterp) lookup(name string, env *Frame) (Val, string) {
 	}
 	return Val{Kind: vUnbound, Name: name}, "unbound"
 }
+
+// table returns the current package's symbol table.
+func (in *scopeInterp) table() map[string]Val {
+	t, ok := in.pkgs[in.cur]
+	if !ok {
+		t = map[string]Val{}
+		in.pkgs[in.cur] = t
+	}
+	return t
+}
+
+// raiseSignal models (error 'cond ...) reaching a handler-bind.
+type raiseSignal struct{ cond string }
 
 func isSymbolAtom(a string) bool {
 	if a == "" || a == "true" || a == "false" {
@@ -309,7 +346,7 @@ func parseSigNode(n *Node) (Sig, []string) {
 
 func (in *scopeInterp) closure(origin, name string, formals *Node, body []*Node, env *Frame, macro bool) Val {
 	sig, names := parseSigNode(formals)
-	return Val{Kind: vClosure, Fn: &Closure{Sig: sig, Params: names, Body: body, Env: env, Macro: macro, Origin: origin, Name: name}}
+	return Val{Kind: vClosure, Fn: &Closure{Sig: sig, Params: names, Body: body, Env: env, Macro: macro, Origin: origin, Name: name, Pkg: in.cur}}
 }
 
 func (in *scopeInterp) evalBody(body []*Node, env *Frame) Val {
@@ -334,6 +371,12 @@ func (in *scopeInterp) apply(c *Closure, args []Val) Val {
 			f.vars[p] = Val{Kind: vDatum}
 		}
 	}
+	// a function body runs with its defining package current
+	saved := in.cur
+	if c.Pkg != "" {
+		in.cur = c.Pkg
+	}
+	defer func() { in.cur = saved }()
 	return in.evalBody(c.Body, f)
 }
 
@@ -384,7 +427,7 @@ func (in *scopeInterp) eval(n *Node, env *Frame) Val {
 		return in.special(hv.Name, n, args, env)
 	case vUnbound:
 		// host builtins (probe) live outside the registry: ordinary functions
-		if head.Atom == "probe" {
+		if head.Atom == "probe" || head.Atom == "user:probe" {
 			for _, a := range args {
 				in.eval(a, env)
 			}
@@ -445,12 +488,76 @@ func (in *scopeInterp) special(name string, n *Node, args []*Node, env *Frame) V
 		return in.evalBody(args[1:], f)
 	case "defun", "defmacro":
 		// (set 'name (lambda ...)) in the current package
-		in.globals[args[0].Atom] = in.closure(name, args[0].Atom, args[1], args[2:], env, name == "defmacro")
+		in.table()[args[0].Atom] = in.closure(name, args[0].Atom, args[1], args[2:], env, name == "defmacro")
 		return Val{Kind: vDatum}
 	case "set":
 		v := in.eval(args[1], env)
-		in.globals[strings.TrimPrefix(args[0].Atom, "'")] = v
+		in.table()[strings.TrimPrefix(args[0].Atom, "'")] = v
 		return v
+	case "in-package":
+		in.cur = strings.TrimPrefix(args[0].Atom, "'")
+		in.table()
+		return Val{Kind: vDatum}
+	case "export":
+		for _, a := range args {
+			if in.exports[in.cur] == nil {
+				in.exports[in.cur] = map[string]bool{}
+			}
+			in.exports[in.cur][strings.TrimPrefix(a.Atom, "'")] = true
+		}
+		return Val{Kind: vDatum}
+	case "use-package":
+		// snapshot copy of the exported symbols bound right now
+		for _, a := range args {
+			from := strings.TrimPrefix(a.Atom, "'")
+			for sym := range in.exports[from] {
+				if v, ok := in.pkgs[from][sym]; ok {
+					in.table()[sym] = v
+				}
+			}
+		}
+		return Val{Kind: vDatum}
+	case "error":
+		for _, a := range args {
+			in.eval(a, env)
+		}
+		if len(args) > 0 && strings.HasPrefix(args[0].Atom, "'") {
+			panic(raiseSignal{cond: strings.TrimPrefix(args[0].Atom, "'")})
+		}
+		in.fail("non-target (error ...) without a quoted condition")
+		return Val{Kind: vDatum}
+	case "rethrow":
+		return Val{Kind: vDatum}
+	case "handler-bind":
+		// binds NO name: the first element of an entry is a condition type.
+		// The body runs; a raised condition runs the first matching handler.
+		var raised *raiseSignal
+		var v Val
+		func() {
+			defer func() {
+				if r := recover(); r != nil {
+					if rs, ok := r.(raiseSignal); ok {
+						raised = &rs
+						return
+					}
+					panic(r)
+				}
+			}()
+			v = in.evalBody(args[1:], env)
+		}()
+		if raised == nil {
+			return v
+		}
+		for _, b := range args[0].List {
+			if b.List[0].Atom == raised.cond || b.List[0].Atom == "condition" {
+				h := in.eval(b.List[1], env)
+				if h.Kind != vClosure {
+					in.fail("handler is not a function")
+				}
+				return in.apply(h.Fn, []Val{{Kind: vDatum}, {Kind: vDatum}})
+			}
+		}
+		panic(*raised)
 	default:
 		// an ordinary builtin function (list, ...): evaluate the arguments
 		for _, a := range args {
@@ -462,10 +569,13 @@ func (in *scopeInterp) special(name string, n *Node, args []*Node, env *Frame) V
 
 // resolveTarget runs refscope over a program.
 func resolveTarget(p *Program, registry map[string]bool) (res Resolution, err string) {
-	in := &scopeInterp{globals: map[string]Val{}, registry: registry}
+	in := &scopeInterp{pkgs: map[string]map[string]Val{}, exports: map[string]map[string]bool{}, cur: "user", registry: registry}
 	func() {
 		defer func() {
 			if r := recover(); r != nil {
+				if _, ok := r.(raiseSignal); ok {
+					return // an unhandled condition ends the load
+				}
 				if _, ok := r.(stopSignal); !ok {
 					panic(r)
 				}
